@@ -246,6 +246,27 @@ def two_sender_interleavings(r, n1, n2, same_id=True):
     return out
 
 
+def id_reuse_patterns(r):
+    """one sender, one frame id, two different messages: the first is abandoned after 1..n-1 fragments (its write() failed,
+    the application retries with the same header object and a refreshed payload; or the sender rebooted and counts ids
+    from 0 again; or the 16-bit id wrapped), the second arrives completely -- in the sender's order"""
+    out = []
+    for na in (2, 3, 4):
+        for nb in (2, 3, 4):
+            for p in range(1, na):
+                for same_type in (True, False):
+                    ma = mk_msg(r, 0o1, 7, na, typ=33)
+                    mb = mk_msg(r, 0o1, 7, nb, typ=33 if same_type else 34)
+                    fa, fb = fragments(ma), fragments(mb)
+                    for deq_mid in (False, True):
+                        st = [("arr", fa[i], (0, i)) for i in range(p)]
+                        if deq_mid:
+                            st.append(("deq",))
+                        st += [("arr", fb[i], (1, i)) for i in range(nb)] + [("deq",), ("deq",)]
+                        out.append(([ma, mb], st))
+    return out
+
+
 def random_stream(r):
     ns = r.randrange(1, 4)
     same = r.random() < 0.5
@@ -293,7 +314,8 @@ def run(rep, model, tier, seed):
     r = common.rng(seed, "c06")
     rep.rule = ("arrival streams for FrameQueueFrag: (a) ALL drop/once/twice patterns of one message of 2..%d fragments, "
                 "each with every single adjacent swap, dequeuing after every arrival or only at the end; (b) ALL "
-                "interleavings of two senders' 2-3-fragment messages with equal and with different frame ids; (c) random "
+                "interleavings of two senders' 2-3-fragment messages with equal and with different frame ids, and one sender re-using a "
+                "frame id for a second message after abandoning the first; (c) random "
                 "streams of 1..3 senders x 1..7 fragments with duplicates, swaps, stray fragments, dequeues; non-trivial = "
                 "stream containing fragment frames; distinct = distinct stream")
     maxn = 4 if tier == "quick" else 5
@@ -315,6 +337,7 @@ def run(rep, model, tier, seed):
     for n1, n2 in ((2, 2), (2, 3), (3, 3)):
         cases += two_sender_interleavings(r, n1, n2, True)
         cases += two_sender_interleavings(r, n1, n2, False)
+    cases += id_reuse_patterns(r)
     for i in range(0, len(cases), 3000):
         check_batch(rep, model, cases[i:i + 3000], "exhaustive")
     rep.exhaustive.append("%d single-message drop/dup/swap patterns and two-sender interleavings" % len(cases))
